@@ -29,8 +29,33 @@ FN = {"add": (1, dsw.calculus_addition), "sub": (2, dsw.calculus_subtraction),
 
 def shaped(rng, maxlen):
     kind = rng.choice(["nines", "pow10", "pow10p1", "zero", "digit", "random", "random", "random", "zrun", "borrow",
-                       "small", "small"])
+                       "small", "small", "runs", "runs", "blocks", "blocks"])
     n = rng.choice([1, 2, 3, 5, 8, 17, 40, rng.randint(1, maxlen), rng.randint(1, maxlen)])
+    if kind == "runs":
+        # concatenated runs of one digit (mostly 0 and 9): long carry / borrow chains crossing every alignment
+        out = str(rng.randint(1, 9))
+        while len(out) < n:
+            out += rng.choice("0099" + "0123456789") * rng.randint(1, 12)
+        return out
+    if kind == "blocks":
+        # blocks of a fixed width (every width 1..12), each all-zero, all-nine or random: block-boundary effects
+        wdt = rng.randint(1, 12)
+        out = ""
+        while len(out) < n:
+            c = rng.choice(["0", "0", "9", "r", "r", "5", "half", "half", "pow"])
+            if c == "r":
+                blk = "".join(rng.choice("0123456789") for _ in range(wdt))
+            elif c == "half":
+                # 10^w / b for the operands that divide a power of ten: the block times the operand is exactly 10^w
+                lead = rng.choice(["5", "25", "2", "125", "1"])[:wdt]
+                blk = lead + "0" * (wdt - len(lead))
+            elif c == "pow":
+                blk = rng.choice(["0" * (wdt - 1) + "1", "9" * (wdt - 1) + "8", "4" + "9" * (wdt - 1), "3" * wdt])
+            else:
+                blk = c * wdt
+            out = blk + out
+        out = out.lstrip("0")
+        return (str(rng.randint(1, 9)) + out) if rng.random() < 0.7 or not out else out
     if kind == "nines":
         return "9" * n
     if kind == "pow10":
